@@ -62,6 +62,18 @@ NEEDS = {
     "C16c": "ThreadPoolServer: a client that resets its connection (poll reports error/hang-up, polling thread drops it) while a newcomer is accepted: _drop_connection closes the connection BEFORE removing the fd_to_conn entry, the late pop removes the newcomer's entry",
     "C17c": "a tracked client whose socket is already closed (its serving thread is between close and clients.discard) or reset when Server.close() runs: one try around the whole loop, the first failing shutdown() skips every later client",
     "C18c": "the same (host, port) registering twice with different alias lists, then unregistering: per-server alias index overwritten instead of merged, unregister removes only the last list",
+    "C01d": "history on one connection: an INSTANCE of a user class is unboxed first, later the CLASS itself arrives as a callable and is called: netref class cache keyed without the instance/class distinction, the class proxy is not callable",
+    "C03d": "two threads on the OWNER side: one boxes X again (RefCountingColl.add looks the slot up before taking the lock) while the other serves the peer's release of X's last proxy: the new reference points at a dropped slot",
+    "C04d": "a history: an encode refused half-way through a container (unserializable element inside tuple/frozenset/slice), then ANY good value: recycled chunk list still holds the partial output (stale prefix)",
+    "C06d": "two connections in one process with different exposed_prefix settings asking for the same bare name: process-wide cache of prefixed twin names keyed by the bare name only",
+    "C07d": "an answered read (getattr/callattr) of a name on an object, then setattr/delattr of the same name on an object of that class: policy decision memoised per (type, name) without the permission",
+    "C08d": "a request whose handler first causes another request to be dispatched on the same side (nested callback) and THEN fails: exception responses carry the connection-wide 'last request' number instead of their own",
+    "C09d": "a built-in exception carrying C-level data attributes (OSError.errno/strerror/filename, SystemExit.code, ...): `hasattr(typ, name)` filter in vinegar.dump drops them",
+    "C10d": "any lend, then every proxy dropped and the release processed: a one-entry memo of the last table lookup keeps a strong reference to the object (the table's keys and counts look right; only liveness shows it)",
+    "C12d": "two or more messages queued while another sender holds the send lock: queue drained from the end senders append to (LIFO), one thread's messages leave in reversed order",
+    "C14d": "three threads on one connection: receiver R holds the lock, W parks for its reply, a third thread's short serve() times out and clears the shared 'somebody is parked' flag; R then skips notify_all and W sleeps on",
+    "C19d": "the integer 160 anywhere in a message (a by-value 160, or the 161st request whose sequence number is 160): immediate-int table made inclusive of 0xa0, 160 is sent as the single byte 0xf0",
+    "C20d": "upload of a directory with a filter rejecting a sub-directory's name: os.walk's dirs list rebound instead of pruned in place, rejected directories are uploaded with their contents",
     "C18b": "register, advance the clock, re-register, advance: setdefault never refreshes the time stamp, live server pruned / wrong order",
 }
 
